@@ -1221,9 +1221,17 @@ class Judge:
                     if d['kind'] != 'type':
                         self.P('%s is declared as %s' % (where, d['kind']), {'kind': 'union_head', 'backend': 'tsd_types'})
                         continue
+                    if not dt.fields and dt.parent_type is None:
+                        # a union without tags (and without a parent) has no values: `never`, not `type E = ;`
+                        if alts != [[None, 'never']]:
+                            self.P('%s has no tags and is declared as `%s` instead of `never`' % (
+                                where, render(canon(d['rhs']), 'ts')),
+                                {'kind': 'empty_declaration', 'backend': 'tsd_types', 'what': 'union_without_tags'},
+                                type='%s.%s' % (ns.name, dt.name))
+                        continue
                     if not alts:
                         self.P('%s is declared without alternatives (`type %s = ;`)' % (where, dt.name),
-                               {'kind': 'empty_declaration', 'backend': 'tsd_types', 'what': 'union_without_tags'},
+                               {'kind': 'empty_declaration', 'backend': 'tsd_types', 'what': 'union_without_alternatives'},
                                type='%s.%s' % (ns.name, dt.name))
                         continue
                     if dt.parent_type is not None and x_ts_ref(dt.parent_type, ns.name) not in alts:
@@ -1302,6 +1310,16 @@ class Judge:
         sc = scan_jsdoc_types(text, 'types.js')
         for _k, msg in sc['problems']:
             self.P('js_types output cannot be scanned: %s' % msg, {'kind': 'malformed_output', 'backend': 'js_types'})
+        # the file consists of comments only: anything else is text that escaped from a comment
+        stray = re.sub(r'//[^\n]*', '', re.sub(r'/\*.*?\*/', '', text, flags=re.S)).strip()
+        if stray:
+            self.P('js_types output has text outside its comments: %r' % stray[:60],
+                   {'kind': 'malformed_output', 'backend': 'js_types'}, stray=stray[:200])
+            if self.injected:
+                # a `*/` of the spec ended a comment early: the typedef tags after it are no longer inside a JSDoc
+                # block, so nothing beyond the malformed text is judged
+                self.stat('not_judged.after_closed_comment')
+                return sc
         by = {}
         for d in sc['decls']:
             by.setdefault(d['name'], []).append(d)
@@ -1359,7 +1377,7 @@ class Judge:
                 if kind_word == 'union':
                     tagm = [canon(m[1]) for m in mem.get('.tag', [])]
                     want = ['lits', [f.name for f in members]]
-                    if tagm != [want]:
+                    if tagm != ([want] if members else []):          # no tags: no `.tag` property
                         self.P('%s: .tag is %s, expected the tags %s' % (where, tagm, want[1]),
                                {'kind': 'member_type', 'backend': 'js_types', 'type_kind': 'union_tags'})
         declared = set(by)
@@ -1762,13 +1780,16 @@ def settle(ck, pd, reply, node_recs, check_syntax):
                                                                       payload['site']), sig, dict(case, crash=payload))
             continue
         files = payload
-        if judge.injected:
-            # a doc string of the spec ends the generated comments early: the text layer (not modelled) decides what
-            # a scanner sees, so only the oracle judges these runs
-            ck.stat('not_compared.%s' % judge.inject_cause)
-            suite = 'decl.js.not_compared'
+        def closed_early(suite):
+            # a `*/` of the spec ended a generated comment early in this output (the oracle has just said so): the text
+            # layer, which is not modelled, decides what a scanner sees, so only the oracle judges this run
+            if judge.injected and any(sig.get('cause') == judge.inject_cause for _w, sig, _d in judge.problems):
+                ck.stat('not_compared.%s' % judge.inject_cause)
+                return 'decl.js.not_compared'
+            return suite
         if backend == 'tsd_types':
             scans = judge.tsd_types(label, opts, files)
+            suite = closed_early(suite)
             if label == 'single':
                 companion = scans.get('types.d.ts', {'decls': []})
             real_decls = [d for sc in scans.values() for d in sc['decls']]
@@ -1788,6 +1809,7 @@ def settle(ck, pd, reply, node_recs, check_syntax):
                 ck.disagree(suite, case, 'ok', mrep)
         elif backend == 'js_types':
             sc = judge.js_types(label, files)
+            suite = closed_early(suite)
             js_declared = {d['name'] for d in sc['decls']}
             if 'ok' in mrep and sort_decls(sc['decls']) == sort_decls(mrep['ok']) and not sc['problems']:
                 ck.agree(suite)
@@ -1809,6 +1831,7 @@ def settle(ck, pd, reply, node_recs, check_syntax):
                                                                          for dt in ns.data_types}
             judge.unmodelled = None
             sc = judge.js_client(label, opts, files, nrec, js_declared)
+            suite = closed_early(suite)
             if judge.unmodelled:
                 # the escaping of string literals is not modelled (the model takes attribute values as they are)
                 ck.stat('not_compared.%s' % judge.unmodelled)
@@ -1835,6 +1858,7 @@ def settle(ck, pd, reply, node_recs, check_syntax):
                 ck.disagree(suite, case, 'ok', mrep)
         elif backend == 'tsd_client':
             sc = judge.tsd_client(label, opts, files, companion)
+            suite = closed_early(suite)
             if 'ok' in mrep and not sc['problems']:
                 text = files.get('client.d.ts', '')
                 real_ms = []
